@@ -14,9 +14,11 @@ structure Sess where
   pos : State
   searching : Bool        -- `current_search.is_some()`
   artifact : Bool         -- `previous_artifact.is_some()`
+  searchOk : Bool := true -- the running search (if any) ends without a panic in its threads; since the repair of
+                          -- F8 a panicked search is joined like any other, only its artifact is lost (`join().ok()`)
 deriving Repr
 
-def Sess.init : Sess := { pos := startState, searching := false, artifact := false }
+def Sess.init : Sess := { pos := startState, searching := false, artifact := false, searchOk := true }
 
 inductive Out
   | line (s : String)                 -- printed on stdout at once
@@ -73,9 +75,10 @@ def parseGoArgs : List String → Option Nat → Option Int → (Option Nat × O
     | [] => (d, t, true)
   | _ :: _, d, t => (d, t, true)
 
-/-- join a running search: `previous_artifact = Some(search.wait_cancel())` -/
+/-- join a running search: `previous_artifact = search.wait_cancel()` — `Some(artifact)` of a search that ended
+normally, `None` of one whose thread panicked (F8: before the repair `join().unwrap()` aborted the process here) -/
 def joinKeep (s : Sess) : Sess × List Out :=
-  if s.searching then ({ s with searching := false, artifact := true }, [.joinRunning]) else (s, [])
+  if s.searching then ({ s with searching := false, artifact := s.searchOk }, [.joinRunning]) else (s, [])
 
 /-- the `position` arm after the running search has been joined; `none` = the process panics -/
 def positionCmd (s : Sess) (args : List String) : Option (Sess × List Out) :=
@@ -106,16 +109,19 @@ def positionCmd (s : Sess) (args : List String) : Option (Sess × List Out) :=
         | some (.ok st') => some ({ s with pos := st' }, [])
         | some (.error _) => some (s, [.line "info string invalid move"])
 
-/-- one iteration of the command loop; `hasBook` abstracts `book.lookup(&current_position).is_some()`.
+/-- one iteration of the command loop; `hasBook` abstracts `book.lookup(&current_position).is_some()`,
+`searchOK` whether a search of that position ends without a panic (true of every legal position: C04).
 Result: `none` = panic; otherwise new state, outputs in order, and whether the loop ends. -/
-def step (hasBook : State → Bool) (s : Sess) (cmd : String) : Option (Sess × List Out × Bool) :=
+def step (hasBook : State → Bool) (s : Sess) (cmd : String) (searchOK : State → Bool := fun _ => true) :
+    Option (Sess × List Out × Bool) :=
   match splitAsciiWs cmd with
   | "go" :: args =>
     let (s, o1) := joinKeep s
     let (d, t, bad) := parseGoArgs args Option.none Option.none
     let o2 := if bad then [Out.line "info string unparsable go commands"] else []
     if hasBook s.pos then some (s, o1 ++ o2 ++ [.bookMove], false)
-    else some ({ s with searching := true, artifact := false }, o1 ++ o2 ++ [.searchStarted d t s.artifact], false)
+    else some ({ s with searching := true, artifact := false, searchOk := searchOK s.pos },
+               o1 ++ o2 ++ [.searchStarted d t s.artifact], false)
   | "isready" :: _ => some (s, [.line "readyok"], false)
   | "position" :: args =>
     let (s, o1) := joinKeep s
